@@ -127,7 +127,7 @@ pub fn pack_coils(coils: &[Coil], bytes: &mut [u8]) -> Result<usize, Error> {
 
 ///  Unpack coils from a byte array.
 pub fn unpack_coils(bytes: &[u8], count: u16, coils: &mut [Coil]) -> Result<(), Error> {
-    if coils.len() < count as usize {
+    if coils.len() < count as usize || bytes.len() < packed_coils_len(count as usize) {
         return Err(Error::BufferSize);
     }
     (0..count).for_each(|i| {
